@@ -402,10 +402,17 @@ impl Drop for HandshakeFuture {
 // ---------------------------------------------------------------------------------------------
 // Connection
 
-#[derive(Debug)]
 pub struct HConn {
     pub c: usize,
     pub h: u32,
+}
+
+// The handle serial `h` is the harness's own label; it must not show in the pool's Debug text,
+// which is part of the canonical state.
+impl fmt::Debug for HConn {
+    fn fmt(&self, f: &mut fmt::Formatter<'_>) -> fmt::Result {
+        write!(f, "HConn(c{})", self.c)
+    }
 }
 
 impl Drop for HConn {
